@@ -32,6 +32,8 @@ func main() {
 		alignd.Calls(w, *in)
 	case "ill":
 		alignd.IllTyped(w, rng)
+	case "matrices":
+		alignd.Matrices(w)
 	default:
 		vt.Fatal("unknown mode %s", os.Args[1])
 	}
